@@ -32,7 +32,7 @@ template <typename V> static std::string show_elems(const V& mv) {
 }
 // C16_FD_1D: fixed-dim 1-d operands (compile since fix C16-matmul-1d-operand; before it the slice-list type of a 1-d
 // operand does not instantiate)
-// #define C16_FD_1D 1     (enabled on the tree with fix C16-matmul-1d-operand)
+#define C16_FD_1D 1
 template <typename A> static std::string with_rhs(const A& lhs, const uvec& sb, bool rfd, const std::string& mode) {
     if (!rfd) return show_elems(view::matmul(lhs, make(sb, mode, 1)));
     switch (sb.size()) {
